@@ -91,7 +91,7 @@ theorem C13_notfound (env : Env) (tab : Nat → Option Hosts) (rt : RTab) (g : G
       c.path = req.path ∧ c.recover = g.recover ∧ c.node = none ∧ c.ok = false ∧ c.respHeaders = [] ∧
       c.headWrap = false := by
   refine ⟨{ handler := g.notFound, node := none, ok := false, params := [], routerName := [], respHeaders := [],
-            headWrap := false, path := req.path, recover := g.recover }, ?_, rfl, rfl, rfl, rfl, rfl, rfl, rfl, rfl, rfl⟩
+            headWrap := false, path := req.path, recover := g.recover, recActs := g.recActs }, ?_, rfl, rfl, rfl, rfl, rfl, rfl, rfl, rfl, rfl⟩
   unfold Group.serve
   have := go_append_reject env tab rt g req g.routers [] req.path hall
   rw [List.append_nil] at this
